@@ -8,6 +8,7 @@ NA = {
     'C05': 'directory walk over the System trait whose per-name decision is a regex-engine call; needs a file-system and regex model, not a contract on this code',
     'C06': 'totality and print/re-parse equality of the entire async parser and its Display impls over all strings; a whole-call-graph property, out of both tools\' subset/capacity',
     'C09': 'every step is a system call on the process descriptor table under fault injection; needs the table as ghost state of VirtualSystem (a model in Verus, out of capacity in Kani)',
+    'C10': 'the decision lives in async interpreter code (where Frame::Condition is pushed, how each kind of error ends a command); the only synchronous mechanism, errexit_is_applicable, is a one-line conjunction over two fields of Env whose contract would restate it, and building Env under Kani is out of capacity',
     'C13': 'quantified over process schedules; the family is silent on concurrency, and the mechanism is async over shared Rc<RefCell> state',
     'C14': 'quantified over schedules; the only object-level kernel (FIFO buffer) has 512/1024-byte constants and VecDeque byte loops beyond Kani\'s reach and outside Verus\'s subset',
     'C15': 'all-interleavings / fairness property of an Rc<RefCell> run queue with a raw waker vtable; with dyn Future inputs nothing is symbolic, and liveness is not decided by contracts',
@@ -33,7 +34,7 @@ LEVEL_TEXT.update({
     'C04': 'Bounded checks (Kani) of the translation kernel on the real code: each ASCII literal is emitted as itself in both regex positions, collating symbols/equivalence classes stand for their characters, ? * and unclosed [; plus an unbounded Verus proof of make_range. Not a decision of the language equality, which is delegated to the regex engine.',
 })
 LEVEL_TEXT.update({
-    'C07': 'Complete per-character proofs (Kani, loop-free over every char) that the quoting decision and the lexer classify characters consistently; the rest of C07 (positional rules, the quoted form, state listings) is not decided.',
+    'C07': 'Complete per-character proofs (Kani, loop-free over every char) that the quoting decision and the lexer classify characters consistently, plus a bounded check (texts of <= 2 characters over 16 characters, literal expectations) that quoted()/Display for Quoted produce a form that reads back as the original text; the printers of state listings and the lexer as a whole are not decided.',
     'C16': 'Unbounded deductive proof (Verus) of the read-only clause for one variable (assign refuses and changes nothing; readonly mark is monotone; export touches only its flag). Scoping and lifetime of VariableSet are outside both verifiers\' reach and are not claimed.',
 })
 LEVEL_TEXT.update({
@@ -54,7 +55,7 @@ NOTE.update({
     'C04': 'Bounded (ASCII, one-character symbols). Trusted: Kani/CBMC, Verus/Z3, regex-syntax grammar facts. Not covered: bracket parser with quoted characters (F2), non-ASCII, regex engine, trim_value, case.',
 })
 NOTE.update({
-    'C07': 'Kernel only. Trusted: Kani/CBMC, std char::is_whitespace. Not covered: str_needs_quoting beyond one character, Display for Quoted, lexer re-reading, printers of state listings.',
+    'C07': 'Kernel only. Trusted: Kani/CBMC, std char::is_whitespace, the reference un-quoter of tools/gen_quote.py. Not covered: texts longer than 2 characters, the real lexer re-reading the form, printers of state listings.',
     'C16': 'One clause only (read-only enforcement on assignment). Trusted: Verus/Z3; Location placeholder; assumed specs of mem::replace and Option::replace. Not covered: VariableSet scoping/lifetime, unset, environment export list.',
 })
 NOTE.update({
@@ -83,7 +84,7 @@ TECH.update({
 
 
 TECH.update({
-    'C07': 'loop-free Kani harnesses over every char (complete) on the real crates',
+    'C07': 'loop-free Kani harnesses over every char (complete) + generated literal-expectation harnesses (bounded) on the real crates',
     'C16': 'contract-based deductive verification (Verus, Z3) of VariableRefMut operations',
 })
 
